@@ -593,6 +593,19 @@ Theorem C04_fv_mask_unreadable : forall m t fvt gd script lang mask tu n gs e,
 Proof. exact gsub_apply_default_v_error. Qed.
 Print Assumptions C04_fv_mask_unreadable.
 
+(* from the bytes of the table to the glyphs, in one statement: for every table that is a byte string whose
+   variations are readable, gsub::apply under the tuple is the unvaried run on the substituted feature list *)
+Theorem C04_fv_gsub_apply_under_tuple : forall m d fvt tu fv t,
+  table_ok d -> layout_read_fv m d = Ok fvt -> feature_variations m fvt tu = Ok fv ->
+  exists t', subst_layout m fv t = Ok t' /\
+    (forall gd script lang feats n gs,
+       gsub_apply_custom_v m t fvt gd script lang feats tu n gs = gsub_apply_custom m t' gd script lang feats n gs) /\
+    (forall gd script lang mask n gs,
+       gsub_apply_default_v m t fvt gd script lang mask tu n gs =
+       gsub_apply_default_t m t' gd script lang mask (match tu with Some _ => true | None => false end) n gs).
+Proof. exact gsub_apply_under_tuple. Qed.
+Print Assumptions C04_fv_gsub_apply_under_tuple.
+
 (* the ordering theorems (d) hold for the list built under a tuple, with the substituted features *)
 Theorem C04_fv_lookups_applied_in_list_order : forall m t t' ls fv feats rvrn lks,
   subst_layout m fv t = Ok t' ->
